@@ -336,6 +336,14 @@ def gen_twin(rng, N, CK):
         txt, level, cls = rng.choice(LEVEL_FORMS)
         attr.append(f"level = {txt}")
         feats["level"] = cls
+    # more twins whose span is DEBUG/TRACE while the err event (default ERROR) or an explicitly
+    # levelled ret event is more severe (separate stream: the rest of the corpus is unchanged)
+    rng2 = random.Random(N * 1000003 + 12345 + CK)
+    if (ret_form or err_form) and rng2.random() < 0.4:
+        txt, level, cls = rng2.choice([f for f in LEVEL_FORMS if f[1] <= 2])
+        attr = [a for a in attr if not a.startswith("level = ")]
+        attr.append(f"level = {txt}")
+        feats["level"] = cls
     par_exp = "Contextual"
     if parent_form == "none":
         attr.append("parent = None")
